@@ -59,6 +59,10 @@ def gen(tier, seed):
     add("default_tmax", "c04-default-tmax", "default_tmax(u1, u3, form, g)", ["pre: 0 <= u1 <= 10 and 0 <= u3 <= 10 and 0 <= form <= 2 and 0 <= g <= 1"],
         "t_max left at its default is the last sample time as a physical quantity, for sample times written in any catalogue system (list of quantities / quantity array / dictionary) under any script system: in the script, after a dictionary round trip and at the ABI (grid and graph set-up routines)",
         "u1: int, u3: int, form: int, g: int", viol="the default t_max is not the last sample time when the sample times carry their own units")
+    add("litre_strings", "c04-explicit-strings", "explicit_volume_strings(k, where)", ["pre: 0 <= k <= 15 and 0 <= where <= 1"],
+        "a bare number replaced by an explicit unit string keeps the physical value for EVERY symbol of the litre family (cell and node volumes) and of the molar family (densities, default state): "
+        "'1 <symbol>' is the SI amount its definition gives and equals the same quantity written as a bare number", "k: int, where: int",
+        viol="a volume / density written with a litre- or molar-family symbol is not the physical quantity that symbol denotes")
     add("output", "c04-output", "output_scaling(eu, opt)", ["pre: 0 <= eu <= 10 and 0 <= opt <= 2"], "engine output is reported in the script's units with the same SI value (every catalogue system, every engine kind)", "eu: int, opt: int")
     return "\n".join(L), conds
 
